@@ -318,6 +318,7 @@ class Machine:
             ctx.assume(self.spec_bool(u))
         for i, e in enumerate(c.ensures):
             ctx.check(self.spec_bool(e), f"{c.key}/post[{i}]", "post")
+        self.check_global_frame("normal")
         # frame of container parameters: a dict / set parameter that the contract does not list in `modifies` is handed to callers' proofs by reference and
         # assumed untouched there, so the body must leave it as it was
         for pn, sname in c.params.items():
@@ -335,10 +336,37 @@ class Machine:
                 ctx.check(goal, f"{c.key}/{name}", "post")
         ctx.canary_points += 1
 
+    def check_global_frame(self, which: str) -> None:
+        """A symbolic global the contract declares but does not list in `modifies` is assumed untouched by every caller: the body must leave it as it was."""
+        c = self.contract
+        for g in c.globals:
+            if g in c.modifies:
+                continue
+            v0, v1 = self.old_globals.get(g), self.global_syms.get(g)
+            if v0 is None or v1 is None:
+                continue
+            if isinstance(v1, VHeapRef) and isinstance(v0, VHeapRef):
+                if v1.addr != v0.addr:
+                    self.ctx.check(z3.BoolVal(False), f"{c.key}/frame/global-{g}-rebound-but-not-in-modifies[{which}]", "frame")
+                    continue
+                cell = self.ctx.cell(v1.addr)
+                if v1.addr in self.old_heap and cell.value is not None and self.old_heap[v1.addr] is not None:
+                    same = cell.value.term == self.old_heap[v1.addr].term
+                    k0 = getattr(self, "old_extra", {}).get(v1.addr, {}).get("keys")
+                    if k0 is not None and "keys" in cell.extra:
+                        same = z3.And(same, cell.extra["keys"].term == k0.term)
+                    if not z3.is_true(z3.simplify(same)):
+                        self.ctx.check(same, f"{c.key}/frame/global-{g}-unchanged[{which}]", "frame")
+            elif isinstance(v1, VTerm) and isinstance(v0, VTerm):
+                same = v1.term == v0.term
+                if not z3.is_true(z3.simplify(same)):
+                    self.ctx.check(same, f"{c.key}/frame/global-{g}-unchanged[{which}]", "frame")
+
     def finish_raise(self, exc: VExc) -> None:
         c = self.contract
         ctx = self.ctx
         matched = False
+        self.check_global_frame("raise")
         for i, e in enumerate(c.exc_ensures):
             ctx.check(self.spec_bool(e), f"{c.key}/exc-post[{i}]", "exc-post")
         for ecls, cond in c.raises:
